@@ -299,7 +299,7 @@ theorem sp_handleLogon (s : Sess) (m : InMsg) : SP s (handleLogon s m).1 := by
     | none =>
       simp only []
       generalize hs3 : (if ((if s2.cfg.initiator = true then false else s2.cfg.resetOnLogon) || logonResetFlag m && !s2.sentReset) = true
-          then s2.storeReset else s2) = s3
+          then dropAndReset s2 else s2) = s3
       have h3 : SP s s3 := by rw [← hs3]; sp_peel
       have hv2 := sp_verifySelect s3 m false true false
       generalize verifySelect s3 m false true false = r2 at hv2
